@@ -48,7 +48,10 @@ func (c02) RealVsStub() map[string]string {
 type C02Unit struct {
 	Cfg   engine.Config `json:"cfg"`
 	Kills int           `json:"kills"`
-	Seed  int64         `json:"seed"`
+	// Faulted: number of additional runs with one injected ERR at a mutating event, each snapshotted at
+	// every call as well (a fallback path taken after a failure must be as atomic as the main path); 0 = all
+	Faulted int   `json:"faulted"`
+	Seed    int64 `json:"seed"`
 }
 
 func replaceConfigs() []engine.Config {
@@ -57,7 +60,7 @@ func replaceConfigs() []engine.Config {
 		o := ops.Get(n)
 		for _, rel := range o.Rels {
 			switch rel {
-			case ops.RelInPlace, ops.RelSame, ops.RelExisting, "append", "populated":
+			case ops.RelInPlace, ops.RelSame, ops.RelExisting, ops.RelExisting0, "append", "populated", "populated-ro":
 				cc = append(cc, engine.Config{Op: n, Rel: rel})
 			case ops.RelPreexisting, ops.RelPartial:
 				if !o.NaturalFail {
@@ -73,9 +76,10 @@ func (c02) Units(tier string, seed int64) ([]core.Unit, error) {
 	var units []core.Unit
 	rng := rand.New(rand.NewPCG(uint64(seed), 0xC02))
 	for _, cfg := range replaceConfigs() {
-		u := C02Unit{Cfg: cfg, Seed: int64(rng.Uint64() >> 1)}
+		u := C02Unit{Cfg: cfg, Seed: int64(rng.Uint64() >> 1), Faulted: 5}
 		if tier != "quick" {
 			u.Kills = 6
+			u.Faulted = 0
 		}
 		b, _ := json.Marshal(u)
 		units = append(units, b)
@@ -85,9 +89,10 @@ func (c02) Units(tier string, seed int64) ([]core.Unit, error) {
 
 // C02Replay payload.
 type C02Replay struct {
-	Cfg  engine.Config `json:"cfg"`
-	At   simfs.Addr    `json:"at"`   // event after which the bad state was seen
-	Kill bool          `json:"kill"` // real-kill leg
+	Cfg   engine.Config `json:"cfg"`
+	At    simfs.Addr    `json:"at"`   // event after which the bad state was seen
+	Kill  bool          `json:"kill"` // real-kill leg
+	Fault *simfs.Fault  `json:"fault,omitempty"`
 }
 
 type crashSnap struct {
@@ -102,7 +107,7 @@ type crashSnap struct {
 // renamed away to. Those are the "staging files" of the statement and must be hidden and next to
 // the destination. Other new paths are new outputs of the operation (a reserved new output is
 // necessarily visible while it is written) and are not a replacement; they are C01/C03's business.
-func crashOracle(cfg engine.Config, s0, s1, at simfs.Snap, ev simfs.Event, machinery map[string]bool, complete func(rel string, e simfs.Entry) bool) []core.Violation {
+func crashOracle(cfg engine.Config, s0, s1, at simfs.Snap, ev simfs.Event, machinery map[string]bool, complete func(rel string, e simfs.Entry) bool, refs ...simfs.Snap) []core.Violation {
 	var vs []core.Violation
 	o := ops.Get(cfg.Op)
 	mk := func(class, tail, detail string) {
@@ -120,6 +125,13 @@ func crashOracle(cfg engine.Config, s0, s1, at simfs.Snap, ev simfs.Event, machi
 	for k := range s0 {
 		if _, ok := s1[k]; !ok {
 			destDirs[filepath.Dir(k)] = true
+		}
+	}
+	for _, ref := range refs { // where the fault-free run publishes (a failed run ends where it started)
+		for k, e1 := range ref {
+			if e0, ok := s0[k]; !ok || !simfs.SameEntry(e0, e1) {
+				destDirs[filepath.Dir(k)] = true
+			}
 		}
 	}
 	var keys []string
@@ -237,6 +249,14 @@ func publishedStates(snaps []crashSnap) func(rel string, e simfs.Entry) bool {
 	}
 }
 
+func isReadOnlyEvent(op string) bool {
+	switch op {
+	case "read", "pread", "stat", "lstat", "fstat", "open", "opendir", "readdir", "closedir":
+		return true
+	}
+	return false
+}
+
 func keysOf(m map[string]bool) []string {
 	var kk []string
 	for k := range m {
@@ -251,16 +271,16 @@ func prepareCfg(cfg engine.Config) (engine.Config, *engine.Result, error) {
 	if err != nil {
 		return cfg, nil, err
 	}
-	if ops.Get(cfg.Op).OutDirOp && cfg.Rel == "populated" && len(cfg.Populate) == 0 && rec.Err == nil && !rec.Panicked {
+	if ops.Get(cfg.Op).OutDirOp && strings.HasPrefix(cfg.Rel, "populated") && len(cfg.Populate) == 0 && rec.Err == nil && !rec.Panicked {
 		cfg.Populate = populateFrom(rec)
 		rec, err = engine.Run(cfg, engine.Options{})
 	}
 	return cfg, rec, err
 }
 
-func runWithCrashSnaps(cfg engine.Config) (*engine.Result, []crashSnap, error) {
+func runWithCrashSnaps(cfg engine.Config, faults ...simfs.Fault) (*engine.Result, []crashSnap, error) {
 	var snaps []crashSnap
-	r, err := engine.Run(cfg, engine.Options{AfterEvent: func(r *engine.Result, ev *simfs.Event) {
+	r, err := engine.Run(cfg, engine.Options{Faults: faults, AfterEvent: func(r *engine.Result, ev *simfs.Event) {
 		if ev.Op == "read" || ev.Op == "pread" || ev.Op == "stat" || ev.Op == "lstat" || ev.Op == "fstat" {
 			return // cannot change the tree
 		}
@@ -319,6 +339,53 @@ func (c02) RunUnit(raw core.Unit, tier string, seed int64) core.UnitResult {
 	if len(res.Samples) == 0 && len(snaps) > 2 {
 		mid := snaps[len(snaps)/2]
 		res.Samples = append(res.Samples, map[string]any{"config": cfg.String(), "crash_after": mid.ev.String(), "sandbox_vs_initial": simfs.Diff(r.S0, mid.snap), "events": eventSummary(r.Events, 20)})
+	}
+	// the same with one injected error: whatever path the operation takes after a failure
+	{
+		var cands []simfs.Fault
+		for _, e := range r.Events {
+			if isReadOnlyEvent(e.Op) || e.Op == "write" {
+				continue
+			}
+			cands = append(cands, simfs.Fault{Addr: e.Addr(), Kind: simfs.KErr, Errno: int(simfs.ErrnosFor(e.Op)[0]), Seq: e.Seq})
+		}
+		frng := rand.New(rand.NewPCG(uint64(u.Seed), 3))
+		if u.Faulted > 0 && len(cands) > u.Faulted {
+			frng.Shuffle(len(cands), func(i, j int) { cands[i], cands[j] = cands[j], cands[i] })
+			cands = cands[:u.Faulted]
+		}
+		for _, f := range cands {
+			fr, fsnaps, err := runWithCrashSnaps(cfg, f)
+			if err != nil {
+				res.Trouble = err.Error()
+				return res
+			}
+			if len(fr.Fired) == 0 {
+				continue
+			}
+			res.FaultFired["ERR"]++
+			// Atomicity is judged against the state this run really ends with; whether a failed run
+			// ends where it started is C01's clause, not this one.
+			end := fr.S1
+			if fr.Err == nil && !fr.Panicked {
+				res.Probes["fault_absorbed_then_crash_points_checked"]++
+			}
+			fmach := replaceMachinery(fr.Events, fr.S0)
+			fpub := publishedStates(fsnaps)
+			for _, cs := range fsnaps {
+				res.Evaluations++
+				res.FaultFired["CRASH"]++
+				if len(simfs.Diff(fr.S0, cs.snap)) > 0 {
+					res.Nontrivial = append(res.Nontrivial, cfg.String()+"|"+f.String()+"|"+cs.ev.Addr().String())
+				}
+				for _, v := range crashOracle(cfg, fr.S0, end, cs.snap, cs.ev, fmach, fpub, r.S1) {
+					v.Signature += "|withfault:" + f.Kind + "@" + f.Addr.Op + "(" + pathKindNorm(f.Addr.Path) + ")"
+					ff := f
+					v.Replay = mustJSON(C02Replay{Cfg: cfg, At: cs.ev.Addr(), Fault: &ff})
+					res.Violations = append(res.Violations, v)
+				}
+			}
+		}
 	}
 	// real kills
 	if u.Kills > 0 && len(snaps) > 0 {
@@ -450,7 +517,11 @@ func (c02) Replay(payload json.RawMessage) ([]core.Violation, error) {
 	if rp.Kill {
 		return realKill(cfg, rp.At, rec)
 	}
-	r, snaps, err := runWithCrashSnaps(cfg)
+	var rfaults []simfs.Fault
+	if rp.Fault != nil {
+		rfaults = append(rfaults, *rp.Fault)
+	}
+	r, snaps, err := runWithCrashSnaps(cfg, rfaults...)
 	if err != nil {
 		return nil, err
 	}
@@ -463,7 +534,7 @@ func (c02) Replay(payload json.RawMessage) ([]core.Violation, error) {
 			for _, d := range simfs.Diff(r.S0, cs.snap) {
 				fmt.Println("   ", d)
 			}
-			vs = append(vs, crashOracle(cfg, r.S0, r.S1, cs.snap, cs.ev, replaceMachinery(r.Events, r.S0), publishedStates(snaps))...)
+			vs = append(vs, crashOracle(cfg, r.S0, r.S1, cs.snap, cs.ev, replaceMachinery(r.Events, r.S0), publishedStates(snaps), rec.S1)...)
 		}
 	}
 	if !found {
